@@ -26,7 +26,7 @@ PROPS["C10"] = {
     "undecided": ["failure inside the rollback itself (second fault)", "selective undo of several dependent changes failing part-way"],
 }
 PROPS["C11"] = {
-    "sidecars": ["c11_history.py", "c10_change.py", "c11_leaves.py", "c11_dependencies.py", "c11_dependencies2.py", "c11_history_n.py"],
+    "sidecars": ["c11_history.py", "c10_change.py", "c11_leaves.py", "c11_dependencies.py", "c11_dependencies2.py", "c11_history_n.py", "c11_contains.py"],
     "level": "proof",
     "claim": "Proof level for the list discipline and the inverse laws of plain undo/redo: History.do clears redo, keeps the undo list within the "
              "limit (_remove_extra_items), undo/redo with empty lists are refused without effect (HistoryError exceptional post), plain undo moves exactly "
@@ -41,7 +41,7 @@ PROPS["C11"] = {
     "undecided": ["selective undo beyond the bounded domain", "leaf changes' inverse law over a concrete file-system model"],
 }
 PROPS["C18"] = {
-    "sidecars": ["c18_datafiles.py", "c18_history_io.py", "c18_memorydb.py"],
+    "sidecars": ["c18_datafiles.py", "c18_write.py", "c18_history_io.py", "c18_memorydb.py"],
     "level": "proof",
     "claim": "Proof level under the stated stream model: _DataFiles.read_data lets no exception escape whatever the data file holds and returns "
              "None or the one complete saved value (loop invariant over the record stream); History._load_history and MemoryDB._load_files raise "
